@@ -1,1 +1,52 @@
-From HL Require Import Tie.Fmt.
+(* C04  Formatting never changes what the journal says.
+   Model: text -> Lexer.v -> Parser.v -> Formatter.v (Server.Format) -> reference applier.
+   The full statement is refuted on the model by a display format whose output the parser's number
+   reader takes for another quantity (recorded finding); what is proved for ALL syntax trees,
+   texts, format tables and configurations is stated below it. *)
+From HL Require Import Lib.Bytes Model.Ast Lib.Dec Model.Lexer Model.Parser Model.NumberFormat Model.Formatter
+  Spec.FormatSpec Spec.FormatRun Proofs.FormatterProofs.
+Open Scope Z_scope.
+
+Definition C04_statement : Prop :=
+  forall t o t1, fmt_text t o = Some t1 -> same_meaning (jof t) (jof t1) = true.
+
+Theorem C04_refuted_three_decimal_format : ~ C04_statement.
+Proof. exact meaning_refuted. Qed.
+Print Assumptions C04_refuted_three_decimal_format.
+
+(* second clause, every input: the edits apply under the reference applier, and each line that
+   holds no posting of the syntax tree loses trailing blanks at most (posting lines on distinct
+   lines inside the text is what the parser guarantees and what the tie checks on every case) *)
+Theorem C04_frame : forall j errs content fm o,
+  post_lines_ok j (split_lf content) = true ->
+  exists out, apply_edits content (server_format j errs content (Some fm) o) = Some (join_lf out) /\
+              frame_ok (split_lf content) out 0 (plines j) = true.
+Proof. exact server_format_frame. Qed.
+Print Assumptions C04_frame.
+
+(* "including formats with fewer decimals than an amount carries": under every display format the
+   decimal that is printed for an amount has exactly the amount's value *)
+Theorem C04_format_never_rounds : forall a f, 0 <= nf_places f -> deqv (printed a f) (a_qty a) = true.
+Proof. exact format_never_rounds. Qed.
+Print Assumptions C04_format_never_rounds.
+
+Theorem C04_rounding_is_exact_at_enough_places : forall q places, - dexp q <= places -> deqv (dround q places) q = true.
+Proof. exact dround_exact. Qed.
+Print Assumptions C04_rounding_is_exact_at_enough_places.
+
+(* third clause, for the model: a line on which the parser reported an error receives no edit *)
+Theorem C04_error_lines_untouched : forall j errs content fm o e l c,
+  In (l, c) errs -> In e (server_format j errs content fm o) -> fe_sl e <> Z.of_N l - 1.
+Proof. exact error_lines_untouched. Qed.
+Print Assumptions C04_error_lines_untouched.
+
+(* non-vacuity: a journal with trailing blanks, odd comment spacing, a quoted commodity, a cost, an
+   assertion, surplus decimals and a non-ASCII account meets the hypotheses and keeps its meaning *)
+Theorem C04_sample_holds :
+  post_lines_ok (jof w_sample) (split_lf w_sample) = true /\
+  match fmt_text w_sample o4 with
+  | Some t1 => same_meaning (jof w_sample) (jof t1) = true /\ t1 <> w_sample
+  | None => False
+  end.
+Proof. exact sample_meaning. Qed.
+Print Assumptions C04_sample_holds.
